@@ -17,7 +17,7 @@ ID = "C27"
 LEVEL = "model_checking"
 RULE = (
     "one case per (map, n in 1..4, r in {0,.3,1}, z in {-1,0,1e-12,1,1e6} as scalar and as length-1 array): all "
-    "vectors x of the alphabet {-1,0,1}^n x {1e-12,1e-6,1,1e6} + 9 generic + mixed-scale letters, ALL pairs (x,x') "
+    "vectors x of the alphabet {-1,0,1}^n x {1e-12,1e-6,1,1e6} + 9 generic + mixed-scale + beyond-the-largest-radius letters, ALL pairs (x,x') "
     "for non-expansiveness, ALL (x, feasible c) for the projection inequality; Jacobian cases per (n, r, rho in "
     "{1e-3,1,1e3}, z in {-1,.5,2,100}) over x-letters x y-letters whose relative distance to the active-set boundary "
     "is > 5%; prox-parameter cases per (n, M kind) over columns 0..n x W kind x alpha x container types.  "
@@ -48,6 +48,11 @@ def vectors(n, seed):
         g = weyl(seed, 70 + k, n)
         for d in (1e-6, 1.0, 1e6):
             L.append(d * g)
+    for i in range(n):  # letters beyond the largest radius of the alphabet (1e6)
+        e = np.zeros(n)
+        e[i] = 3e6
+        L += [e, -e]
+    L.append(1e9 * np.ones(n))
     sc = np.array([1e6, 1e-6, 1.0, 1e-12])[:n]
     for v in (np.ones(n), np.array([(-1.0) ** i for i in range(n)]), weyl(seed, 75, n)):
         L.append(v * sc)
